@@ -115,6 +115,17 @@ impl MemoryAreas {
     self.cart_state.get_rom_bank() % bank_count
   }
 
+  /// Index into the cartridge RAM buffer for a bus address in 0xa000-0xbfff,
+  /// or None if the cartridge has no RAM. Bank numbers and offsets beyond the
+  /// RAM size wrap around, as the missing address lines do on hardware.
+  pub fn get_cart_ram_index(&self, addr: u16) -> Option<usize> {
+    if self.cart_ram.len() == 0 {
+      return None;
+    }
+    let offset = addr as usize & 0x1fff;
+    Some((0x2000 * self.cart_state.get_ram_bank() + offset) % self.cart_ram.len())
+  }
+
   pub fn run_clock_cycles(&mut self, cycles: ClockCycles) {
     #[cfg(gb_dynarec_verif)]
     verif::add_clocks(cycles.as_usize());
@@ -214,8 +225,10 @@ pub extern "sysv64" fn memory_read_byte(areas: *const MemoryAreas, addr: u16) ->
     return memory_areas.video_ram[offset];
   }
   if addr < 0xc000 { // Cart RAM
-    let offset = addr as usize & 0x1fff;
-    return memory_areas.cart_ram[0x2000 * memory_areas.cart_state.get_ram_bank() + offset];
+    return match memory_areas.get_cart_ram_index(addr) {
+      Some(index) => memory_areas.cart_ram[index],
+      None => 0xff,
+    };
   }
   if addr < 0xd000 { // Work RAM Bank 0
     let offset = addr as usize & 0xfff;
@@ -264,8 +277,9 @@ pub extern "sysv64" fn memory_write_byte(areas: *mut MemoryAreas, addr: u16, val
     return;
   }
   if addr < 0xc000 { // Cart RAM
-    let offset = addr as usize & 0x1fff;
-    memory_areas.cart_ram[0x2000 * memory_areas.cart_state.get_ram_bank() + offset] = value;
+    if let Some(index) = memory_areas.get_cart_ram_index(addr) {
+      memory_areas.cart_ram[index] = value;
+    }
     return;
   }
   if addr < 0xd000 { // Work RAM Bank 0
